@@ -59,7 +59,7 @@ def training_sets(quick):
         if len({POOL["a"][i] for i in comb}) >= 3:
             out.append(comb)
     if quick:
-        return [(0, 1, 2, 4), (0, 2, 3, 4), (0, 0, 2, 4), (1, 2, 4, 4)]
+        return [(0, 1, 2, 4), (0, 0, 2, 4), (1, 2, 4, 4)]
     return out
 
 
@@ -222,7 +222,7 @@ def subchecks(tier, seed):
         Sub("row-locality-all-trainings", drv_rows, {"formulas": fs, "trainings": tr, "outputs": ["pandas", "sparse"], "L": 1},
             shard_depth=2, bounds={"formulas": len(fs), "training_sets": len(tr), "max_selection_length": 1, "outputs": ["pandas", "sparse"]}),
     ]) + [
-        Sub("row-locality-categorical-dtype", drv_rows, {"formulas": [f for f in fs if "A" in f], "trainings": tr[:2] if quick else tr[:12], "outputs": ["pandas"],
+        Sub("row-locality-categorical-dtype", drv_rows, {"formulas": [f for f in fs if "A" in f], "trainings": tr[:1] if quick else tr[:12], "outputs": ["pandas"],
                                                          "L": 2, "adtypes": ["category-training-levels", "category-present-levels-only", "category-reversed-order"]},
             shard_depth=2, bounds={"formulas": "those using A", "followup_dtype_of_A": ["category (training levels)", "category (present levels only)", "category (reversed order)"],
                                    "max_selection_length": 2}),
